@@ -6,7 +6,7 @@ from __future__ import annotations
 import inspect, time
 import torch
 from ..common import Rng, Report, budget, call_real, flat_out, dec_out, enc_args, run_driver, outcomes_agree
-from ..registry import SPECS, Spec, fresh_cfg, public_cfg, cat_batches, new_metric, finding_class
+from ..registry import SPECS, Spec, fresh_cfg, public_cfg, cat_batches, new_metric, finding_class, fine_variant, f64_variant
 from ..engine import observe, same_obs, obs_json, fed, gen_stream
 import torcheval.metrics as M
 
@@ -71,6 +71,15 @@ def sweep(rep: Report, rng: Rng, reps: int, deadline: float):
                     rep.notes.append("budget exhausted"); return
                 cfg = fresh_cfg(cfg0)
                 bs = gen_stream(spec, cfg, rng, rng.randint(1, 5))
+                # storage-dtype variants of the same stream (class and functional see the same tensors): float64 data split below
+                # float32 resolution / off the float32 grid — a class that caches or accumulates in another precision than its
+                # functional twin shows as a changed tie structure or value
+                mode = rng.choice(["f32", "f32", "f32", "f64-fine", "f64-off-grid"])
+                rep.count(f"dtype-mode:{mode}")
+                if mode == "f64-fine":
+                    bs = [fine_variant(b, salt=k + 1) for k, b in enumerate(bs)]
+                elif mode == "f64-off-grid":
+                    bs = [f64_variant(b, salt=k + 1) for k, b in enumerate(bs)]
                 if cat_batches(spec, bs) is None or (spec.kind == "retrieval" and cfg.get("num_queries", 1) != 1):
                     continue
                 rep.count(f"class:{spec.name}")
@@ -89,7 +98,7 @@ def run(rep: Report):
         except Exception as e:  # noqa: BLE001
             rep.violation(f"C03|{name}|default-constructor-raises", f"{name}() raises {e!r}", {"class": name, "error": repr(e)})
     rng = Rng(rep.seed * 1000003 + 3)
-    sweep(rep, rng, 10 if rep.tier == "quick" else 120, time.time() + budget(rep.tier, 50, 700))
+    sweep(rep, rng, 30 if rep.tier == "quick" else 120, time.time() + budget(rep.tier, 50, 700))
 
 
 def search(rep: Report):
